@@ -47,7 +47,7 @@ func allChecks() []Check {
 				{Harness: "VP_C01_tokens", Quick: map[string]int{"K": 2}, Thorough: map[string]int{"K": 2}, MustReach: []string{"C01/tokens/accepted", "C01/tokens/rejected"}, PanicLabel: "C01/tokens/no-panic"},
 			},
 			Bounds: map[string]string{"tiers": "the thorough tier of this check runs the quick-tier parameters (larger bounds were not validated on the unchanged tree within the session and are therefore not registered)", "scaling": "CONCRETE SHAPES (not symbolic): 18 input shapes (operator chains, unclosed and closed nesting, lists of stray tokens that raise one diagnostic each, member / call chains, prefix runs, long strings, several lines) parsed at two lengths, the second four times the first: the number of SSA instructions the engine executes grows at most six-fold (natively: elapsed time at 4096 / 16384 units, used only to confirm a candidate)",
-				"pool":   "CONCRETE POOL: totality and completeness on 72 longer formulas (keywords as member names and operands, nested lists and conditionals, truncated constructs)",
+				"pool":   "CONCRETE POOL: totality and completeness on 87 longer formulas (keywords as member names and operands, nested lists and conditionals, truncated constructs; member names on the line after their dot followed by stray bytes inside lists: a text with a byte that starts no token is a syntax error)",
 				"bytes":  "ParseSourceCode on every text of exactly L symbolic bytes (valid UTF-8 or not); quick L=3, thorough L=4; every path must end within the step budget (unwinding check)",
 				"lists":  "a( t1..tK ) and [ t1..tK ] over the 10 tokens the list loops distinguish, symbolic line-break flags, full error recovery (quick K=3, thorough K=4); bytes: every text is parsed twice and both calls must agree",
 				"tokens": "the real parser with full error recovery over every sequence of exactly K tokens (symbolic kinds over the whole scanner image, symbolic line-break flags) through a stub scanner; quick K=2, thorough K=3"},
@@ -161,6 +161,7 @@ func allChecks() []Check {
 			Runs: []HarnessRun{
 				{Harness: "VP_C07_spread", Quick: map[string]int{}, MustReach: []string{"C07/spread/done"}, PanicLabel: "C07/spread/no-panic", SampleEvery: 1},
 				{Harness: "VP_C07_rebind", Quick: map[string]int{}, MustReach: []string{"C07/rebind/done"}, PanicLabel: "C07/rebind/no-panic", SampleEvery: 5},
+				{Harness: "VP_C07_reassign", Quick: map[string]int{}, MustReach: []string{"C07/reassign/done"}, PanicLabel: "C07/reassign/no-panic", SampleEvery: 29},
 				{Harness: "VP_C07_locals", Quick: map[string]int{"N": 2, "D": 2}, Thorough: map[string]int{"N": 3, "D": 2}, MustReach: []string{"C07/locals/value", "C07/locals/error"}, PanicLabel: "C07/locals/no-panic"},
 				{Harness: "VP_C07_sequencing", Quick: map[string]int{"W": 2}, MustReach: []string{"C07/sequencing/done"}, PanicLabel: "C07/sequencing/no-panic"},
 				{Harness: "VP_C07_builtins", Quick: map[string]int{}, MustReach: []string{"C07/builtins/done"}, PanicLabel: "C07/builtins/no-panic"},
@@ -168,6 +169,7 @@ func allChecks() []Check {
 			},
 			Bounds: map[string]string{"operators": "$a = num, (FORM), [$a, num] through the real parser for 12 two-operand shapes x 14 operators and 11 one-operand shapes over 5 concrete numbers (incl. 19 digits): local, later read and caller's number unchanged, also when FORM fails; write monitor",
 				"spread":     "CONCRETE POOL: 8 formulas in which a local is assigned in one argument of a (spread) call / array element and read in another: left-to-right order",
+				"reassign":   "CONCRETE POOL: $a = v1 then $a = v2 for all pairs of 14 operands of every kind (numbers, numeric-looking strings, null, booleans, empty string, data reads, -0; many pairs loosely equal but of different kinds), in two evaluations by one runner / one comma sequence / chained through a second local: the assignment has v2's value, a later evaluation and a read further right see v2 with its kind",
 				"rebind":     "4 successful assignments, then one of 7 assignments whose right-hand side fails, then a read in a third evaluation by the same runner: the earlier binding is still visible",
 				"sequencing": "L , R where L is an assignment wrapped in up to two of {parentheses, selected/unselected-side/condition of a conditional, array element, call argument, nested comma} with fillers that read locals, and R reads $a / [$a,$b] / $b = $a; value, call count and visibility in a later evaluation against the reference",
 				"builtins":   "$a = num, fn($a), fn(num), [$a, num] for each of 10 numeric builtins and a symbolic number (c < 1000, e in -2..0): the local and the caller's number still hold the original value; write monitor on the data map",
@@ -211,8 +213,10 @@ func allChecks() []Check {
 			ID: "C16", Title: "Names and member access read the caller's data, null-safely",
 			Runs: []HarnessRun{
 				{Harness: "VP_C16_access", Quick: map[string]int{"D": 2}, Thorough: map[string]int{"D": 3}, MustReach: []string{"C16/access/value", "C16/access/error"}, PanicLabel: "C16/access/no-panic"},
+				{Harness: "VP_C16_structs", Quick: map[string]int{"K": 2}, Thorough: map[string]int{"K": 3}, MustReach: []string{"C16/structs/done"}, PanicLabel: "C16/structs/no-panic", SampleEvery: 37},
 			},
-			Bounds:      map[string]string{"access": "root name from a pool of 17 (nested map, typed maps incl. zero values, struct, nil, typed nil pointer, int/int32/int64/float64/string/bool/time/slice, a key colliding with a builtin, missing, this) followed by 0..D selectors over a pool of 12 present/absent keys with symbolic '.' / '!.' flags, against a reference lookup written with type switches"},
+			Bounds:      map[string]string{"structs": "CONCRETE POOL: sequences of K field reads (Name / Age, '.' or '!.') over 6 struct values of different Go types that share field names at different positions (named, two anonymous with swapped order, a function-local type with the name of a package-level one, a wider anonymous struct, another named type), by one runner or fresh runners: every read gives that value's own field",
+				"access": "root name from a pool of 17 (nested map, typed maps incl. zero values, struct, nil, typed nil pointer, int/int32/int64/float64/string/bool/time/slice, a key colliding with a builtin, missing, this) followed by 0..D selectors over a pool of 12 present/absent keys with symbolic '.' / '!.' flags, against a reference lookup written with type switches"},
 			Outside:     []string{"member access on scalars, slices, times, pointers to structs and missing/unexported struct fields (statement silent; the latter is C03's subject)", "symbolic integer leaves (C04/entry)"},
 			Assumptions: commonAssumptions,
 		},
@@ -238,6 +242,7 @@ func allChecks() []Check {
 			Runs: []HarnessRun{
 				{Harness: "VP_C18_trans", Quick: map[string]int{}, MustReach: []string{"C18/trans/done"}, PanicLabel: "C18/trans/no-panic", SampleEvery: 3},
 				{Harness: "VP_C18_inverse", Quick: map[string]int{}, MustReach: []string{"C18/inverse/done"}, PanicLabel: "C18/inverse/no-panic", SampleEvery: 3},
+				{Harness: "VP_C18_roundlarge", Quick: map[string]int{}, MustReach: []string{"C18/roundlarge/done"}, PanicLabel: "C18/roundlarge/no-panic", SampleEvery: 7},
 				{Harness: "VP_C18_rounding", Quick: map[string]int{"CB": 1000, "E": 2, "H": 0}, Thorough: map[string]int{"CB": 1000000, "E": 4, "H": 0}, MustReach: []string{"C18/rounding/done"}, PanicLabel: "C18/rounding/no-panic"},
 				{Harness: "VP_C18_rounding", Quick: map[string]int{"CB": 100, "E": 1, "H": 1}, Thorough: map[string]int{"CB": 1000, "E": 2, "H": 1}, MustReach: []string{"C18/rounding/done"}, PanicLabel: "C18/rounding/no-panic"},
 				{Harness: "VP_C18_tostring", Quick: map[string]int{"CB": 32, "E": 24}, Thorough: map[string]int{"CB": 1000, "E": 24}, MustReach: []string{"C18/tostring/done"}, PanicLabel: "C18/tostring/no-panic"},
@@ -247,7 +252,8 @@ func allChecks() []Check {
 				{Harness: "VP_C18_bits", Quick: map[string]int{"B": 20, "K": 0}, Thorough: map[string]int{"B": 31, "K": 0}, MustReach: []string{"C18/bits/done"}, PanicLabel: "C18/bits/no-panic"},
 				{Harness: "VP_C18_bigints", Quick: map[string]int{"LO": 0, "HI": 62}, MustReach: []string{"C18/bigints/done"}, PanicLabel: "C18/bigints/no-panic"},
 			},
-			Bounds: map[string]string{"rounding": "abs ceil floor round roundBank on x = (-1)^s * c * 10^e, c < CB symbolic, e in -E..1 (library Quantize/RoundToInt executed symbolically)", "minmax": "lists of 1..N symbolic numbers", "conv": "toInt, toFloat (numbers and texts of 1..4 bytes over {0-9 . e - space x}), toString round trip (c < 1000), finite", "bits": "& | ^ ~ on integers |v| < 2^B vs two's complement", "bigints": "toInt(n) and n & n for one symbolic integer 1 <= |n| < 2^62",
+			Bounds: map[string]string{"roundlarge": "CONCRETE POOL: abs ceil floor round roundBank on 18 arguments of large magnitude x both signs (2.5e16, 1e16..1e30, 16..20-digit integers incl. 2^63-1 and 2^64-1, ties and near-ties whose integer part has 17-18 digits) against the definitions computed in 64-bit integers",
+				"rounding": "abs ceil floor round roundBank on x = (-1)^s * c * 10^e, c < CB symbolic, e in -E..1 (library Quantize/RoundToInt executed symbolically)", "minmax": "lists of 1..N symbolic numbers", "conv": "toInt, toFloat (numbers and texts of 1..4 bytes over {0-9 . e - space x}), toString round trip (c < 1000), finite", "bits": "& | ^ ~ on integers |v| < 2^B vs two's complement", "bigints": "toInt(n) and n & n for one symbolic integer 1 <= |n| < 2^62",
 				"rounding-history": "the same with another rounding builtin (none / round / roundBank) called earlier in the process",
 				"tostring":         "toString(x) parsed back by toFloat for c < CB symbolic and every exponent in -E..E (both notations of the number printer)",
 				"trans":            "CONCRETE POOL (not symbolic): 108 arguments of sqrt/exp/ln/log incl. exact squares, powers of ten, values near 1; results within one unit in the 15th significant digit of the 34-digit value computed independently (Python decimal)",
@@ -284,9 +290,11 @@ func allChecks() []Check {
 				{Harness: "VP_C11_results", Quick: map[string]int{}, MustReach: []string{"C11/results/value", "C11/results/error"}, PanicLabel: "C11/results/no-panic"},
 				{Harness: "VP_C11_nested", Quick: map[string]int{}, MustReach: []string{"C11/nested/done"}, PanicLabel: "C11/nested/no-panic", SampleEvery: 3},
 				{Harness: "VP_C11_hostcalls", Quick: map[string]int{"A": 2}, Thorough: map[string]int{"A": 3}, MustReach: []string{"C11/hostcalls/value", "C11/hostcalls/error"}, PanicLabel: "C11/hostcalls/no-panic"},
+				{Harness: "VP_C11_truncpool", Quick: map[string]int{}, MustReach: []string{"C11/truncpool/done"}, PanicLabel: "C11/truncpool/no-panic", SampleEvery: 5},
 				{Harness: "VP_C11_trunc", Quick: map[string]int{"B": 16, "E": 0}, Thorough: map[string]int{"B": 8, "E": 1}, MustReach: []string{"C11/trunc/done"}, PanicLabel: "C11/trunc/no-panic"},
 			},
 			Bounds: map[string]string{"tiers": "the thorough tier of this check runs the quick-tier parameters (larger bounds were not validated on the unchanged tree within the session and are therefore not registered)", "trunc": "x = (-1)^s * c * 10^e with c < 2^B symbolic and e in -E..E passed to int / int64 / float64 parameters: the received integer is x truncated toward zero, the received float is exact for integers and brackets the value otherwise (the bridge's float64 division is decided by the solver's floating-point theory); quick B=16,E=0 (integers: conversions only); thorough B=8,E=1 (with the float64 division by a power of ten)",
+				"truncpool": "CONCRETE POOL: 23 many-digit numbers (34-digit quotients such as 20/3, long fractions, halves, negative values) through parser and runner to int / int64 / int32 / []int64 parameters: the function receives the value truncated toward zero (each value is far enough from an integer that the float64 bridge cannot carry it across)",
 				"nested":    "7 formulas whose arguments are themselves calls (first / middle / last position, two levels, variadic) on a fresh runner, after an earlier evaluation by the same runner, and after an earlier call in the same formula: the invocation log equals the left-to-right log with each call's own arguments",
 				"hostcalls": "16 recording host functions (string, int, int8, float64, bool, interface{}, *decimal.Big, time.Time, []string, []int, []int32, []byte, map[string]int parameters, variadic tails, optional leading context) x argument lists of length 0..A over {null, symbolic bool, numbers from a pool incl. fractions and negatives, symbolic strings, string array, number array, map, time}, with and without spread; the oracle predicts the exact invocation log or an error", "results": "returned error (symbolic) aborts with an error naming the function; returned int/int32/int64/float32/float64 become numbers"},
 			Outside:     []string{"the text produced when a composite value is converted to a string parameter", "numbers beyond the pool and the C11/trunc bounds (the number-to-int bridge is floating point)", "host functions with other parameter kinds"},
